@@ -72,15 +72,43 @@ RULE = (
     "doubled and upper-case suffix; space; non-ASCII; several dots; relative path; trailing slash; store='auto'} with unrelated "
     "complete saves at every name the target name could be confused with; x edge pre-states {empty directory, zero-byte file, "
     "directory with an empty sub-directory, dangling symlink, symlink to an empty directory}; x global mode {default, warnings as "
-    "errors, working directory elsewhere, torch.no_grad()}, plus the no-fault controls. A case is non-trivial when the fault actually fired inside save() "
+    "errors, working directory elsewhere, torch.no_grad()}; x 12 exception types; re-entrant saves (an attribute that, while being "
+    "pickled, runs a nested save / failing save / refused write-once save / load, or parks its thread while another thread saves) "
+    "with the outer save failing at every effect from that point on; plus the no-fault controls. A case is non-trivial when the fault actually fired inside save() "
     "(mode 'w' on an existing target is refused before any write and counts as trivial)."
 )
 
 STORES = ["zip", "dir"]
 MODES = ["w", "o"]
 PRES = ["absent", "old", "file", "directory"]
+class C08BaseExc(BaseException):
+    """A BaseException subclass that is not an Exception."""
+
+
+class C08OSErrorSub(OSError):
+    """An OSError subclass unknown to the library."""
+
+
 INJ_EXC = {"OSError": OSError, "RuntimeError": RuntimeError, "KeyboardInterrupt": KeyboardInterrupt}
-POISON_EXC = {"PicklingError": pickle.PicklingError, "KeyboardInterrupt": KeyboardInterrupt}
+# EXCEPTION-TYPE dimension: the same oracle for whatever is raised at a write (the library itself raises some of these
+# types for its own purposes, e.g. FileExistsError for the write-once refusal)
+EXC_TYPES = {
+    "FileExistsError": FileExistsError,
+    "FileNotFoundError": FileNotFoundError,
+    "PermissionError": PermissionError,
+    "IsADirectoryError": IsADirectoryError,
+    "SystemExit": SystemExit,
+    "MemoryError": MemoryError,
+    "RecursionError": RecursionError,
+    "GeneratorExit": GeneratorExit,
+    "C08BaseExc": C08BaseExc,
+    "C08OSErrorSub": C08OSErrorSub,
+}
+INJ_EXC.update(EXC_TYPES)
+POISON_EXC = {"PicklingError": pickle.PicklingError, "KeyboardInterrupt": KeyboardInterrupt, "FileExistsError": FileExistsError, "SystemExit": SystemExit, "C08OSErrorSub": C08OSErrorSub}
+# RE-ENTRANT saves: what the hook attribute of graph "hooked" does when the pickling fallback reaches it
+HOOK_ACTIONS = ["nested_ok", "nested_fail_caught", "nested_load", "park_B_ok", "park_B_fail"]  # the outer save can go on afterwards
+HOOK_ACTIONS_FATAL = ["nested_fail_propagates", "nested_w_existing"]  # the exception of the nested save leaves the outer save
 GRAPHS = ["attrs", "arrays", "tensors", "nested", "containers", "mixed_all"]
 # Target spelling: how the same target is named in the call. zip: the path given ends in ".zip", or an extension-less
 # path P is given with store="zip" (the library appends ".zip": the EFFECTIVE target is P.zip and P itself is a sibling
@@ -193,6 +221,90 @@ class C08Poison:
 
     def __reduce__(self):
         return self.__reduce_ex__(2)
+
+
+class C08Nested(AutoSerialize):
+    pass
+
+
+_HOOK_ENV = {}
+
+
+class C08Hook:
+    """Reaches the pickling fallback; while being pickled it runs another save / load (re-entrancy), then pickles as the
+    string "hooked"."""
+
+    def __init__(self, action):
+        self.action = action
+
+    def __reduce_ex__(self, protocol):
+        env = _HOOK_ENV
+        env["runs"] = env.get("runs", 0) + 1
+        if env["runs"] == 1:
+            r = env.get("rec")
+            if r is not None:
+                env["hook_at"] = r.n
+            try:
+                _hook_action(self.action, env)
+            finally:
+                if r is not None:
+                    env["hook_end"] = r.n
+        return (str, ("hooked",))
+
+    def __reduce__(self):
+        return self.__reduce_ex__(2)
+
+
+def build_nested(seed, failing=False):
+    r = _rng(seed, 77)
+    o = C08Nested()
+    o.n_a = 5
+    o.n_arr = r.normal(size=3)
+    o.n_s = "nested"
+    if failing:
+        o.n_zz = C08Poison("PicklingError")  # last attribute: the nested save fails part-way
+    return o
+
+
+def _hook_action(action, env):
+    nt, store, seed = env["nested_target"], env["store"], env["seed"]
+    if action == "nested_ok":
+        env["nested"] = "started"
+        build_nested(seed).save(nt, mode="w", store=store)
+        env["nested"] = "ok"
+    elif action in ("nested_fail_caught", "nested_fail_propagates"):
+        env["nested"] = "started"
+        try:
+            build_nested(seed, failing=True).save(nt, mode="w", store=store)
+            env["nested"] = "ok"
+        except pickle.PicklingError:
+            env["nested"] = "raised"
+            if action == "nested_fail_propagates":
+                raise
+    elif action == "nested_w_existing":
+        env["nested"] = "existing"
+        build_nested(seed).save(nt, mode="w", store=store)  # refused: FileExistsError leaves the outer save
+    elif action == "nested_load":
+        load(env["other"])
+        env["nested"] = "loaded"
+    elif action.startswith("park"):
+        env["ev_parked"].set()
+        if not env["ev_go"].wait(60):
+            raise RuntimeError("C08 harness: thread A was never resumed")
+    else:
+        raise ValueError(action)
+
+
+def build_hooked(seed, action, resolved=False):
+    r = _rng(seed, 55)
+    t = C08Top()
+    t.a = 1
+    t.arr = r.normal(size=3)
+    t.hook = "hooked" if resolved else C08Hook(action)
+    t.b = "after"
+    t.arr2 = r.integers(1, 9, size=4)
+    t.last = 2
+    return t
 
 
 def _rng(seed, *key):
@@ -588,11 +700,14 @@ def _cls(relation, case):
         "exc": case.get("exc") or "none",
         "spelling": spelling_of(case),
         "global_mode": case.get("gmode") or "default",
+        "reentrant": case.get("hook") or "none",
     }
 
 
 def may_refuse_case(case):
     """Cases in which a failing save without any injected fault is legitimate (it is then judged like any failed save)."""
+    if case.get("hook") in HOOK_ACTIONS_FATAL:
+        return True  # the nested save's exception propagates out of the outer save by construction
     if case.get("gmode") == "warnings_error":
         return True  # a save that fails because a warning became an error is one more failing save
     if case["pre"] == "symlink_emptydir":
@@ -624,6 +739,9 @@ def run_case(case, seed, scratch, verbose=False):
     gmode = case.get("gmode")
     extras = []  # names that belong to the target (the directory a symlinked target points to)
     link_dest = []  # where a dangling symlink at the target points to
+    hook = case.get("hook")
+    nname = ("nested.zip" if store == "zip" else "nested") if hook else None
+    watch_excl = [nname] if hook else []  # the nested save's own target: judged separately
     elsewhere = os.path.join(cdir, "cwd")
     os.makedirs(elsewhere)
     if entry is not None:
@@ -707,12 +825,22 @@ def run_case(case, seed, scratch, verbose=False):
             return "+".join(tree_hash(os.path.join(parent, n)) for n in [tname] + extras)
 
         def siblings():
-            d = snapshot_dir(parent, [tname] + extras)
+            d = snapshot_dir(parent, [tname] + extras + watch_excl)
             d["<other working directory>"] = tree_hash(elsewhere)
             return d
 
         # ---- the object to save
-        obj = build_graph(gname, seed)
+        def expected_new():
+            return build_hooked(seed, hook, resolved=True) if hook else build_graph(gname, seed)
+
+        obj = build_hooked(seed, hook) if hook else build_graph(gname, seed)
+        if hook:
+            ntarget = os.path.join(parent, nname)
+            if hook == "nested_w_existing":
+                _copy(tpl_zip if store == "zip" else tpl_dir, ntarget)
+            _HOOK_ENV.clear()
+            _HOOK_ENV.update(nested_target=ntarget, store=store, seed=seed, other=os.path.join(parent, "other.zip" if store == "zip" else "other"))
+            nt0 = tree_hash(ntarget)
         poison_before = C08Poison.fired
         if fam == "seamfree":
             path = tuple((k, v) for k, v in case["path"])
@@ -727,13 +855,50 @@ def run_case(case, seed, scratch, verbose=False):
         # ---- save
         raised = None
         r = None
-        if fam in ("injected", "record"):
+        if fam in ("injected", "record") or hook:
             r = Recorder(case.get("k"), INJ_EXC[case["exc"]] if case.get("exc") else None, root=os.path.abspath(cdir))
-            with intercepted(r):  # seams are restored on exit, whatever happens (workers are long-lived)
-                try:
-                    _quiet_save(obj, arg, gmode=gmode, elsewhere=elsewhere, mode=mode, store=store_arg)
-                except BaseException as e:  # the behaviour under test (incl. KeyboardInterrupt)
-                    raised = type(e).__name__
+            if hook:
+                _HOOK_ENV["rec"] = r
+            if hook and hook.startswith("park"):
+                # pinned interleaving: thread A (the outer save, the one that is recorded / faulted) parks inside the hook,
+                # the main thread runs save B completely, then A resumes
+                ev_parked, ev_go, res = threading.Event(), threading.Event(), {}
+                _HOOK_ENV.update(ev_parked=ev_parked, ev_go=ev_go)
+
+                def run_a():
+                    r.tid = threading.get_ident()
+                    try:
+                        _quiet_save(obj, arg, gmode=gmode, elsewhere=elsewhere, mode=mode, store=store_arg)
+                    except BaseException as e:
+                        res["raised"] = type(e).__name__
+
+                with intercepted(r):
+                    th = threading.Thread(target=run_a, daemon=True)
+                    th.start()
+                    while not ev_parked.wait(0.02) and th.is_alive():
+                        pass
+                    try:
+                        if ev_parked.is_set():
+                            _HOOK_ENV["nested"] = "started"
+                            try:
+                                _quiet_save(build_nested(seed, failing=hook == "park_B_fail"), ntarget, mode="w", store=store)
+                                _HOOK_ENV["nested"] = "ok"
+                            except pickle.PicklingError:
+                                _HOOK_ENV["nested"] = "raised"
+                    finally:
+                        ev_go.set()
+                        th.join(120)
+                    if th.is_alive():
+                        raise RuntimeError("C08 harness: thread A did not finish")
+                raised = res.get("raised")
+            else:
+                with intercepted(r):  # seams are restored on exit, whatever happens (workers are long-lived)
+                    try:
+                        _quiet_save(obj, arg, gmode=gmode, elsewhere=elsewhere, mode=mode, store=store_arg)
+                    except BaseException as e:  # the behaviour under test (incl. KeyboardInterrupt)
+                        raised = type(e).__name__
+            if hook:
+                rec["hook_at"], rec["hook_end"], rec["nested"], rec["hook_runs"] = _HOOK_ENV.get("hook_at"), _HOOK_ENV.get("hook_end"), _HOOK_ENV.get("nested"), _HOOK_ENV.get("runs", 0)
             rec["fired"] = r.fired is not None
             rec["effects_seen"] = r.n
             rec["log"] = list(r.log)
@@ -776,7 +941,7 @@ def run_case(case, seed, scratch, verbose=False):
             else:
                 try:
                     got = _quiet_load(target)
-                    d = struct_diff(got, build_graph(gname, seed))
+                    d = struct_diff(got, expected_new())
                     state = "loads_complete_new" if d is None else "WRONG_AFTER_SUCCESS"
                     if d is not None:
                         fails.append((_cls("successful_save_round_trips", case), f"{describe(case)}: save() returned normally but load(target) differs from the saved object: {d}"))
@@ -795,7 +960,7 @@ def run_case(case, seed, scratch, verbose=False):
                     got = None
                     state = f"unreadable:{type(e).__name__}"
                 if got is not None:
-                    new = build_graph(gname, seed)
+                    new = expected_new()
                     d_old = struct_diff(got, build_old(seed))
                     d_new = struct_diff(got, new)
                     if d_old is None and pre == "old":
@@ -822,12 +987,33 @@ def run_case(case, seed, scratch, verbose=False):
                     got = _quiet_load(pth)
                 except Exception:
                     continue
-                new = build_graph(gname, seed)
+                new = expected_new()
                 d_new = struct_diff(got, new)
                 if d_new is not None and struct_diff(got, build_old(seed)) is not None:
                     state += "+PARTIAL_AT_LINK_DESTINATION"
                     have = sorted(vars(got)) if hasattr(got, "__dict__") else repr(got)
                     fails.append((_cls("no_partial_object_loadable", case), f"{describe(case)}: save() raised {raised}; the target is a symlink -> {n!r} and afterwards load({n!r}) returns a {type(got).__name__} with attributes {have} (complete object has {sorted(vars(new))}; first difference: {d_new}); expected nothing partial loadable where the save was writing"))
+        if hook:
+            # the nested / concurrent save's own target obeys the same oracle for ITS outcome
+            nt1 = tree_hash(ntarget)
+            nres = rec.get("nested")
+            if hook == "nested_w_existing":
+                if nt1 != nt0:
+                    fails.append((_cls("write_once_target_unmodified", case), f"{describe(case)}: the nested write-once save onto the existing sibling {nname!r} changed it ({nt0} -> {nt1}); expected byte-identical"))
+            elif hook != "nested_load":
+                nstate, ngot = "absent", None
+                if os.path.lexists(ntarget):
+                    try:
+                        ngot = _quiet_load(ntarget)
+                        nd = struct_diff(ngot, build_nested(seed))
+                        nstate = "complete" if nd is None else "PARTIAL"
+                    except Exception as e:
+                        nstate = f"unreadable:{type(e).__name__}"
+                if nres == "ok" and nstate != "complete":
+                    fails.append((_cls("completed_save_of_other_object_survives", case), f"{describe(case)}: the other save to {nname!r} returned normally, the outer save {'raised ' + raised if raised else 'returned'}; afterwards {nname!r} is {nstate}; expected it to load as the complete object it was given"))
+                elif nres != "ok" and nstate == "PARTIAL":
+                    fails.append((_cls("no_partial_object_loadable", case), f"{describe(case)}: the other save to {nname!r} did not complete ({nres}); afterwards load({nname!r}) returns an object with attributes {sorted(vars(ngot))} (complete: {sorted(vars(build_nested(seed)))}); expected absent, unreadable or complete"))
+                state += f"|nested:{nres}:{nstate.split(':')[0]}"
         if may_refuse and raised is not None and fam in ("control", "record"):
             state = "refused:" + state
         rec["state"] = state
@@ -864,12 +1050,23 @@ def describe(case):
         how = f"path given as {ptype} " + ("'…/o.zip'" if ext == "suffixed" else "'…/o' (extension-less, library appends .zip; effective target o.zip)") + f", un-suffixed sibling 'o' holds {'nothing' if stem == 'absent' else 'a complete directory-store object' if stem == 'dirstore' else 'a plain file'}"
     else:
         how = f"path given as {sp}"
+    hk = {
+        "nested_ok": "a complete nested save of another object to the sibling 'nested'",
+        "nested_fail_caught": "a nested save that fails part-way (caught by the attribute)",
+        "nested_fail_propagates": "a nested save that fails part-way (exception propagates)",
+        "nested_w_existing": "a nested write-once save onto the existing sibling 'nested' (FileExistsError propagates)",
+        "nested_load": "a nested load of a sibling",
+        "park_B_ok": "parking thread A while the main thread runs a complete save B to the sibling 'nested'",
+        "park_B_fail": "parking thread A while the main thread runs a failing save B to the sibling 'nested'",
+    }.get(case.get("hook"))
+    if hk:
+        where = f"attribute 'hook' performs {hk} while being pickled; outer save: " + where
     gm = {"warnings_error": " under warnings-as-errors", "cwd_elsewhere": " with the working directory elsewhere", "no_grad": " under torch.no_grad()"}.get(case.get("gmode"), "")
     return f"graph={case['graph']} store={case['store']} mode={case['mode']} pre={case['pre']}{gm} [{how}]: {where}"
 
 
 def case_key(case):
-    return [case["family"], case["graph"], case["store"], case["mode"], case["pre"], case.get("exc"), case.get("k"), case.get("path"), spelling_of(case), case.get("gmode")]
+    return [case["family"], case["graph"], case["store"], case["mode"], case["pre"], case.get("exc"), case.get("k"), case.get("path"), spelling_of(case), case.get("gmode"), case.get("hook")]
 
 
 def work(case, seed=0, scratch="/tmp"):
@@ -877,9 +1074,17 @@ def work(case, seed=0, scratch="/tmp"):
     rec, fails = run_case(case, seed, scratch)
     refusal_expected = case["mode"] == "w" and case["pre"] != "absent"
     expect_fire = case["family"] in ("injected", "seamfree") and not refusal_expected and not may_refuse_case(case)
-    t.case(key=case_key(case), nontrivial=bool(rec["fired"]), outcome=[case["family"], case["store"], spelling_of(case), case.get("gmode"), case["mode"], case["pre"], rec["raised"], rec["state"], bool(rec["fired"])])
+    t.case(key=case_key(case), nontrivial=bool(rec["fired"]), outcome=[case["family"], case["store"], spelling_of(case), case.get("gmode"), case.get("hook"), rec.get("nested"), case["mode"], case["pre"], rec["raised"], rec["state"], bool(rec["fired"])])
     t.extra[f"{case['family']}_cases"] += 1
-    t.extra[f"state_{rec['state'].split(':')[0]}"] += 1
+    t.extra[f"state_{rec['state'].split('|')[0].split(':')[0]}"] += 1
+    if case.get("hook"):
+        t.extra["reentrant_cases"] += 1
+        if rec.get("hook_runs"):
+            t.extra["reentrant_hook_ran"] += 1
+        if rec.get("nested") == "ok":
+            t.extra["reentrant_other_save_completed"] += 1
+    if case.get("exc") in EXC_TYPES and case["family"] == "injected":
+        t.extra["exception_type_cases"] += 1
     if rec["fired"]:
         t.extra[f"{case['family']}_faults_fired"] += 1
     elif expect_fire:
@@ -1129,11 +1334,56 @@ def run(ctx):
                                 if keep(m, p, k, n):
                                     cases.append({"family": "injected", "graph": g, "store": s, "mode": m, "pre": p, "exc": "OSError", "k": k, "n_effects": n, "gmode": gm})
     n_gm = sum(1 for c in cases if c.get("gmode"))
+    # EXCEPTION TYPES: every type of EXC_TYPES at (quick: first / middle / middle of the zip assembly / last; thorough:
+    # every) fault position x both stores x both modes x pre-states absent/old; quick: graphs attrs/arrays, thorough: the
+    # four cheapest graphs. The extra poison types at the first / last attribute position.
+    et_graphs = [g for g in graphs if g in (("attrs", "arrays") if ctx.quick else ("attrs", "arrays", "nested", "tensors"))]
+    n0 = len(cases)
+    for g in et_graphs:
+        pos = positions(build_graph(g, ctx.seed))
+        for s in STORES:
+            log = effects[(g, s)]
+            n = len(log)
+            for m in MODES:
+                for p in ("absent", "old"):
+                    for e in [x for x in POISON_EXC if x not in ("PicklingError", "KeyboardInterrupt")]:
+                        for pi in sorted({0, len(pos) - 1}):
+                            if keep(m, p, pi, len(pos)):
+                                cases.append({"family": "seamfree", "graph": g, "store": s, "mode": m, "pre": p, "exc": e, "path": [list(x) for x in pos[pi]]})
+                    if have_seams:
+                        for e in EXC_TYPES:
+                            for k in (some_positions(n, log) if ctx.quick else range(n)):
+                                if keep(m, p, k, n):
+                                    cases.append({"family": "injected", "graph": g, "store": s, "mode": m, "pre": p, "exc": e, "k": k, "n_effects": n})
+    n_et = len(cases) - n0
+    # RE-ENTRANT and pinned two-thread saves (graph "hooked"): the outer save completes, or fails at EVERY effect from the
+    # hook on (effects of the nested save included). Needs the seams only for the injected part.
+    n0 = len(cases)
+    hook_ref = {}
+    for act in HOOK_ACTIONS + HOOK_ACTIONS_FATAL:
+        for s in STORES:
+            for m, p in (("w", "absent"), ("o", "absent"), ("o", "old"), ("w", "old")):
+                cases.append({"family": "control", "graph": "hooked", "store": s, "mode": m, "pre": p, "exc": None, "hook": act})
+            if act in HOOK_ACTIONS_FATAL or not have_seams:
+                continue
+            ref = {"family": "record", "graph": "hooked", "store": s, "mode": "w", "pre": "absent", "exc": None, "k": None, "hook": act}
+            r1, f1 = run_case(ref, ctx.seed, ctx.scratch)
+            for cls, msg in f1:
+                ctx.fail(cls, ref, msg)
+            ctx.case(key=case_key(ref), nontrivial=False, outcome=["record", s, act, r1["raised"], r1["state"]])
+            if r1.get("hook_at") is None:
+                raise Broken(f"re-entrant reference run {act}/{s}: the hook attribute was never pickled")
+            hook_ref[f"{act}/{s}"] = {"effects": r1["effects_seen"], "hook_at": r1["hook_at"], "hook_end": r1["hook_end"]}
+            for k in range(r1["hook_at"], r1["effects_seen"]):
+                for e in (["OSError"] if ctx.quick else ["OSError", "KeyboardInterrupt", "FileExistsError"]):
+                    for m, p in (("w", "absent"), ("o", "absent"), ("o", "old")):
+                        cases.append({"family": "injected", "graph": "hooked", "store": s, "mode": m, "pre": p, "exc": e, "k": k, "n_effects": r1["effects_seen"], "hook": act})
+    n_hook = len(cases) - n0
     n_seamfree = sum(1 for c in cases if c["family"] == "seamfree")
     n_inj = sum(1 for c in cases if c["family"] == "injected")
     n_seamfree = sum(1 for c in cases if c["family"] == "seamfree")
     n_inj = sum(1 for c in cases if c["family"] == "injected")
-    ctx.say(f"{len(cases)} executions: {n_seamfree} seam-free, {n_inj} injected, {len(cases) - n_seamfree - n_inj} controls / recorded no-fault runs; {n_alt} of them with a non-baseline target spelling, {n_named} from the target-name alphabet, {n_edge} with an edge pre-state, {n_gm} under a non-default global mode")
+    ctx.say(f"{len(cases)} executions: {n_seamfree} seam-free, {n_inj} injected, {len(cases) - n_seamfree - n_inj} controls / recorded no-fault runs; {n_alt} of them with a non-baseline target spelling, {n_named} from the target-name alphabet, {n_edge} with an edge pre-state, {n_gm} under a non-default global mode, {n_et} for the exception-type dimension, {n_hook} re-entrant / two-thread")
     merged = ctx.pmap(work, cases, chunk=12, label="faults", seed=ctx.seed, scratch=ctx.scratch)
 
     fired_sf = int(merged.extra["seamfree_faults_fired"])
@@ -1152,6 +1402,9 @@ def run(ctx):
             "target_names": {k: {"given": v["given"], "store": v["store_arg"], "effective_target": v["effective"], "relative": bool(v.get("rel")), "neighbours": neighbour_names(v["effective"], v["given"])} for k, v in NAMES.items()},
             "target_name_path_types": PTYPES,
             "edge_pre_states": EDGE_PRES,
+            "exception_types": list(EXC_TYPES) + ["OSError", "KeyboardInterrupt"],
+            "extra_poison_exception_types": [x for x in POISON_EXC if x not in ("PicklingError", "KeyboardInterrupt")],
+            "reentrant_actions": HOOK_ACTIONS + HOOK_ACTIONS_FATAL,
             "global_modes": GMODES,
         },
         bounds={
@@ -1165,6 +1418,8 @@ def run(ctx):
                 "exceptions": ["OSError", "PicklingError"],
                 "executions": n_alt,
             },
+            "exception_type_lattice": {"graphs": et_graphs, "pre_states": ["absent", "old"], "fault_positions": "first, middle, middle of the zip assembly, last" if ctx.quick else "all", "executions": n_et},
+            "reentrant_lattice": {"reference_runs": hook_ref, "outer_fault_positions": "every effect from the hook on (nested effects included)", "executions": n_hook},
             "edge_pre_state_lattice": {"graphs": edge_graphs, "fault_positions": "first, middle, middle of the zip assembly, last" if ctx.quick else "all", "executions": n_edge},
             "global_mode_lattice": {"graphs": gm_graphs, "pre_states": gm_pres, "fault_positions": {"warnings_error": "all", "cwd_elsewhere": "first, middle, middle of the zip assembly, last", "no_grad": "first, middle, middle of the zip assembly, last"}, "executions": n_gm},
             "target_name_lattice": {
@@ -1181,6 +1436,8 @@ def run(ctx):
         raise Broken("seam-free family: no poison value ever fired (the serializer no longer pickles unknown values?)")
     if have_seams and fired_inj == 0:
         raise Broken("injected family: no fault ever fired")
+    if merged.nfails == 0 and not merged.extra["reentrant_hook_ran"]:
+        raise Broken("re-entrant family: the hook attribute never ran")
     if have_seams and merged.nfails == 0:
         for gm in GMODES:
             if not merged.extra[f"global_mode_{gm}_faults_fired"]:
